@@ -28,7 +28,8 @@ def drivers(tier):
         d['toggle-fixpoint'] = (WorldDriver(
             'toggle-fixpoint', own='L', types=('H', 'P', 'N'), ids=(1, 2),
             explicit_ids=(1,), max_autos=1, toggles=True, max_postponed=2,
-            shapes=((), ('H',), ('P',), ('H', 'P'), ('H', 'H'))), {})
+            shapes=((), ('H',), ('P',), ('H', 'P'), ('H', 'H'))),
+            dict(max_states=250000, time_budget=240))
     else:
         d['toggle-fixpoint'] = (WorldDriver(
             'toggle-fixpoint', own='L', types=('H', 'P', 'N', 'OA'),
